@@ -22,7 +22,16 @@ func init() {
 	Plans["C13"] = func(o Options) *Plan {
 		p := &Plan{Property: "C13"}
 		add := func(kinds []string, sup, init []int, extra, mutate int) {
-			p.Jobs = append(p.Jobs, Job{Harness: "gonnx.H_C13", Case: map[string]interface{}{"kinds": kinds, "sup": sup, "init": init, "extra": extra, "mutate": mutate}})
+			p.Jobs = append(p.Jobs, Job{Harness: "gonnx.H_C13", Case: map[string]interface{}{"kinds": kinds, "sup": sup, "init": init, "extra": extra, "mutate": mutate, "bare": 0}})
+			shadowedUnsupplied := false
+			for i := range init {
+				if init[i] == 1 && sup[i] < 0 {
+					shadowedUnsupplied = true
+				}
+			}
+			if shadowedUnsupplied {
+				p.Jobs = append(p.Jobs, Job{Harness: "gonnx.H_C13", Case: map[string]interface{}{"kinds": kinds, "sup": sup, "init": init, "extra": extra, "mutate": mutate, "bare": 1}})
+			}
 		}
 		maxRank1, maxRank2 := 3, 2
 		if o.Tier == "thorough" {
@@ -86,7 +95,7 @@ func init() {
 		p.Bounds = []string{
 			"declared inputs: 1..3 (for three: every subset shadowed by initializers); declared rank 1..3 (thorough 1..4) for one input, 1..2 (thorough 1..3) for two, fixed triples for three",
 			"every dimension fixed / dim_param / unspecified; fixed dim_value symbolic over [1, 2^63-1] (all values decided by the solver)",
-			"supplied tensors: missing, rank-1, rank, rank+1; each supplied extent symbolic over [1,6]; extra undeclared tensor; inputs shadowed by initializers",
+			"supplied tensors: missing, rank-1, rank, rank+1; each supplied extent symbolic over [0,6] (empty axes included); extra undeclared tensor; inputs shadowed by initializers",
 			"map iteration: forward and reverse order at every range over a Go map",
 		}
 		p.Outside = []string{"declared rank 0 and value-infos lacking type/shape (the gate skips them)", "dim_value <= 0", "supplied extents > 6 or 0", "more than 3 inputs"}
